@@ -244,8 +244,14 @@ def check(ctx):
         cols.setdefault(t[2][1] if t[2][0] == "const" else None, t[3])
         t = t[1]
     pe = cols.get("percent_expected_vote")
-    okpe = pe is not None and ir.show(pe, maxdepth=8).startswith("(numpy.divide(df['results_turnout'].values, df['results_turnout'].values[-1]") \
-        and ir.show(pe, maxdepth=8).endswith("* df['percent_expected_vote'].values[-1])")
+    def _last_of(t, name):
+        return t[0] == "sub" and t[2] == ("const", -1) and _colarr(t[1]) == name
+
+    okpe = False
+    for share, latest in (ir.comm(pe, "*") if pe is not None else []):
+        if share[0] == "call" and ir.show(share[1]).endswith("divide") and len(share[2]) == 2 and _colarr(share[2][0]) == "results_turnout" \
+                and _last_of(share[2][1], "results_turnout") and _last_of(latest, "percent_expected_vote"):
+            okpe = True
     # the ratio is written into an out= buffer with casting='unsafe': the buffer must be floating point whatever the dtype of
     # the vote counts (zeros_like(<int column>) truncates every share < 1 to 0 and collapses the history onto 0 percent)
     divs = [x for x in ir.walk(pe)] if pe is not None else []
